@@ -514,6 +514,8 @@ def _scenario(struct, idx, n, seed, orders, refit=False, rounding="r1", as_list=
             fam = condf[(idx + i) % 4]
             if fitmode != "wlsq_mixed" and fam == "ew_d5":
                 fam = "lognormal"
+            if fitmode == "wlsq_mixed" and not any(d["family"] == "ew_d5" for d in dims):
+                fam = "ew_d5"  # two WLSQ dimensions with different weights: options must not leak across dimensions
             dims.append(_cond_dim(fam, co[i]))
             gen.append({"lognormal": "lognormal", "normal": "normal"}.get(fam, "weibull"))
     # slicers sit on the conditioning dimensions
